@@ -22,6 +22,12 @@ Lemma K_seas_mask : forall start stop t, seas_mask start stop t t = ((start <=? 
 Proof. intros. unfold seas_mask. rewrite Z.geb_leb. reflexivity. Qed.
 Lemma K_seas_n_events : forall n, seas_n_events n = n.
 Proof. reflexivity. Qed.
+Lemma K_i3t_ra_store : forall x, i3t_ra_store x = x.
+Proof. reflexivity. Qed.
+Lemma K_seas_ra_store : forall x, seas_ra_store x = x.
+Proof. reflexivity. Qed.
+Lemma K_ct_radec_store : forall x, ct_radec_store x = x.
+Proof. reflexivity. Qed.
 Lemma K_al_append_new_len : forall n m, al_append_new_len n m = n + m.
 Proof. reflexivity. Qed.
 
@@ -340,10 +346,14 @@ Section Sep.
   (* scrambling *)
   Lemma H_scramble m t : (nT <= t)%nat -> HS (scramble m t) (fun _ => True).
   Proof.
-    intros Ht. destruct m as [|k lo hi draws|times ras|times ras decs]; cbn [scramble].
+    intros Ht. destruct m as [|k lo hi draws|times ras|times ras|times ras decs]; cbn [scramble].
     - apply hret; exact I.
     - eapply hb; [apply H_getitem|]. intros _ _.
       eapply hb; [apply H_alloc|]. intros b Hb. apply H_setitem; assumption.
+    - eapply hb; [apply H_alloc|]. intros bt Hbt.
+      eapply hb; [apply H_setitem; assumption|]. intros _ _.
+      eapply hb; [apply H_getitem|]. intros _ _.
+      eapply hb; [apply H_alloc|]. intros br Hbr. apply H_setitem; assumption.
     - eapply hb; [apply H_alloc|]. intros bt Hbt.
       eapply hb; [apply H_setitem; assumption|]. intros _ _.
       eapply hb; [apply H_getitem|]. intros _ _.
@@ -848,10 +858,14 @@ Theorem scramble_frame : forall m t s,
 Proof.
   intros m t s.
   assert (HFm : HF t (doc_fields m) (scramble m t) (fun _ => True)).
-  { destruct m as [|k lo hi draws|times ras|times ras decs]; cbn [scramble doc_fields].
+  { destruct m as [|k lo hi draws|times ras|times ras|times ras decs]; cbn [scramble doc_fields].
     - apply fret; exact I.
     - eapply fb; [apply F_getitem|]. intros _ _.
       eapply fb; [apply F_alloc|]. intros b _. apply F_setitem. cbn; auto.
+    - eapply fb; [apply F_alloc|]. intros bt _.
+      eapply fb; [apply F_setitem; cbn; auto|]. intros _ _.
+      eapply fb; [apply F_getitem|]. intros _ _.
+      eapply fb; [apply F_alloc|]. intros br _. apply F_setitem; cbn; auto.
     - eapply fb; [apply F_alloc|]. intros bt _.
       eapply fb; [apply F_setitem; cbn; auto|]. intros _ _.
       eapply fb; [apply F_getitem|]. intros _ _.
@@ -1063,4 +1077,116 @@ Lemma seasonal_masks_spec : forall runs times,
 Proof.
   intros runs times. unfold seasonal_masks. apply map_ext. intros r. apply map_ext. intros t.
   apply K_seas_mask.
+Qed.
+
+(* ---------------------------------------------------------------- RA written by the time based methods *)
+Lemma mbind_ok {A B} (m : M A) (f : A -> M B) s b :
+  snd (mbind m f s) = Ok b ->
+  exists a, snd (m s) = Ok a /\ mbind m f s = f a (fst (m s)).
+Proof.
+  unfold mbind. destruct (m s) as [s1 [a|e]]; cbn [fst snd]; intros E; [exists a; auto | discriminate].
+Qed.
+
+Lemma nth_error_upd_same {A} (l : list A) n v : (n < length l)%nat -> nth_error (upd l n v) n = Some v.
+Proof. revert n; induction l as [|a l IH]; intros [|n] H; cbn in *; try lia; auto. apply IH; lia. Qed.
+
+Lemma lookup_rebind_same f b fs : lookup f fs <> None -> lookup f (rebind f b fs) = Some b.
+Proof.
+  induction fs as [|[g c] r IH]; cbn; [congruence|].
+  destruct (Nat.eqb g f) eqn:E; cbn; rewrite E; [reflexivity | exact IH].
+Qed.
+Lemma lookup_app_same f b fs : lookup f fs = None -> lookup f (fs ++ [(f, b)]) = Some b.
+Proof.
+  induction fs as [|[g c] r IH]; cbn; [rewrite Nat.eqb_refl; reflexivity|].
+  destruct (Nat.eqb g f); [discriminate | exact IH].
+Qed.
+
+Lemma setitem_col t f b s vals :
+  nth_error (sb s) b = Some vals -> snd (t_setitem t f b s) = Ok tt ->
+  col (fst (t_setitem t f b s)) t f = Some vals.
+Proof.
+  intros Eb. unfold t_setitem, mbind, rdtab, rdbuf.
+  destruct (nth_error (st s) t) as [x|] eqn:E; cbn [fst snd]; [|discriminate].
+  rewrite Eb; cbn [fst snd].
+  assert (Ht : (t < length (st s))%nat) by (apply nth_error_Some_lt in E; exact E).
+  destruct (lookup f (tf x)) eqn:El.
+  - destruct (al_si_len_bad _ _); cbn [raise fst snd]; [discriminate|]. intros _.
+    unfold wrtab, col; cbn [fst sb st]. rewrite nth_error_upd_same by exact Ht. cbn [tf].
+    rewrite lookup_rebind_same by congruence. exact Eb.
+  - destruct (al_af_len_bad _ _); cbn [raise fst snd]; [discriminate|]. intros _.
+    unfold wrtab, col; cbn [fst sb st]. rewrite nth_error_upd_same by exact Ht. cbn [tf].
+    rewrite lookup_app_same by exact El. exact Eb.
+Qed.
+
+Lemma setitem_col_other t f g b s : f <> g -> col (fst (t_setitem t g b s)) t f = col s t f.
+Proof.
+  intros Hne. unfold t_setitem, mbind, rdtab, rdbuf.
+  destruct (nth_error (st s) t) as [x|] eqn:E; cbn [fst snd]; [|reflexivity].
+  destruct (nth_error (sb s) b) as [v|]; cbn [fst snd]; [|reflexivity].
+  assert (Ht : (t < length (st s))%nat) by (apply nth_error_Some_lt in E; exact E).
+  destruct (lookup g (tf x)).
+  - destruct (al_si_len_bad _ _); cbn [raise fst snd]; [reflexivity|].
+    unfold wrtab, col; cbn [fst sb st]. rewrite nth_error_upd_same by exact Ht. rewrite E. cbn [tf].
+    rewrite lookup_rebind_other by exact Hne. reflexivity.
+  - destruct (al_af_len_bad _ _); cbn [raise fst snd]; [reflexivity|].
+    unfold wrtab, col; cbn [fst sb st]. rewrite nth_error_upd_same by exact Ht. rewrite E. cbn [tf].
+    rewrite lookup_app_other by exact Hne. reflexivity.
+Qed.
+
+Lemma alloc_then_setitem_col t f v s :
+  snd ((mdo b <-- alloc v ;; t_setitem t f b) s) = Ok tt ->
+  col (fst ((mdo b <-- alloc v ;; t_setitem t f b) s)) t f = Some v.
+Proof.
+  unfold mbind, alloc. cbn [fst snd]. intros H.
+  apply setitem_col; [cbn [sb]; apply nth_error_snoc | exact H].
+Qed.
+
+(* I3TimeScramblingMethod / I3SeasonalVariationTimeScramblingMethod / TimeScramblingMethod: the column written to
+   `ra` is the transform result itself (no narrowing afterwards) *)
+Theorem time_ra_column : forall m t s,
+  snd (scramble m t s) = Ok tt ->
+  match m with
+  | ScrI3Time _ ras | ScrSeasonal _ ras | ScrTime _ ras _ => col (fst (scramble m t s)) t F_RA = Some ras
+  | _ => True
+  end.
+Proof.
+  intros m t s Hok. destruct m as [|k lo hi draws|times ras|times ras|times ras decs]; try exact I; cbn [scramble] in *.
+  - apply mbind_ok in Hok as Hk; destruct Hk as (bt & _ & E1); rewrite E1 in *; clear E1.
+    apply mbind_ok in Hok as Hk; destruct Hk as (u1 & _ & E1); rewrite E1 in *; clear E1.
+    apply mbind_ok in Hok as Hk; destruct Hk as (u2 & _ & E1); rewrite E1 in *; clear E1.
+    rewrite (map_ext _ _ K_i3t_ra_store), map_id in *.
+    apply alloc_then_setitem_col. exact Hok.
+  - apply mbind_ok in Hok as Hk; destruct Hk as (bt & _ & E1); rewrite E1 in *; clear E1.
+    apply mbind_ok in Hok as Hk; destruct Hk as (u1 & _ & E1); rewrite E1 in *; clear E1.
+    apply mbind_ok in Hok as Hk; destruct Hk as (u2 & _ & E1); rewrite E1 in *; clear E1.
+    rewrite (map_ext _ _ K_seas_ra_store), map_id in *.
+    apply alloc_then_setitem_col. exact Hok.
+  - apply mbind_ok in Hok as Hk; destruct Hk as (bt & _ & E1); rewrite E1 in *; clear E1.
+    apply mbind_ok in Hok as Hk; destruct Hk as (u1 & _ & E1); rewrite E1 in *; clear E1.
+    apply mbind_ok in Hok as Hk; destruct Hk as (u2 & _ & E1); rewrite E1 in *; clear E1.
+    apply mbind_ok in Hok as Hk; destruct Hk as (u3 & _ & E1); rewrite E1 in *; clear E1.
+    rewrite !(map_ext _ _ K_ct_radec_store), !map_id in *.
+    (* alloc ras; alloc decs; setitem RA; setitem DEC *)
+    apply mbind_ok in Hok as Hk; destruct Hk as (br & Ebr & E1); rewrite E1 in *; clear E1.
+    apply mbind_ok in Hok as Hk; destruct Hk as (bd & Ebd & E1); rewrite E1 in *; clear E1.
+    apply mbind_ok in Hok as Hk; destruct Hk as (u4 & Hra & E1); rewrite E1 in *; clear E1.
+    rewrite setitem_col_other by (unfold F_RA, F_DEC; congruence).
+    destruct u4. apply setitem_col; [|exact Hra].
+    unfold alloc in *; cbn [fst snd sb st] in *. inversion Ebr; subst br.
+    rewrite nth_error_app1 by (rewrite app_length; cbn; lia). apply nth_error_snoc.
+Qed.
+
+Theorem time_ra_in_range : forall m t s lo hi,
+  snd (scramble m t s) = Ok tt ->
+  match m with
+  | ScrI3Time _ ras | ScrSeasonal _ ras | ScrTime _ ras _ =>
+      (forall v, In v ras -> lo <= v < hi) ->
+      exists vals, col (fst (scramble m t s)) t F_RA = Some vals /\ length vals = length ras /\
+                   forall v, In v vals -> lo <= v < hi
+  | _ => True
+  end.
+Proof.
+  intros m t s lo hi Hok. pose proof (time_ra_column m t s Hok) as Hc.
+  destruct m as [|k l h draws|times ras|times ras|times ras decs]; try exact I;
+    intros Hr; exists ras; auto.
 Qed.
